@@ -81,7 +81,7 @@ def replay(prop, rec, idx):
         path.write_text(json.dumps(doc, indent=1, default=str))
         try:
             r = subprocess.run([VENV_PY, "-c", "import runpy,sys; a=sys.argv; sys.argv=['run.py', a[1]]; runpy.run_path(a[2], run_name='__main__')",
-                                str(path), str(HERE / "replay" / "run.py")], cwd=repo_root(), capture_output=True, text=True, timeout=300,
+                                str(path), str(HERE / "replay" / "run.py")], cwd=repo_root(), capture_output=True, text=True, timeout=int(os.environ.get("PYVC_REPLAY_TIMEOUT", "90")),
                                env={**os.environ, "PYTHONPATH": str(HERE / "replay"), "PYTHONDONTWRITEBYTECODE": "1"})
             last = [l for l in r.stdout.splitlines() if l.startswith("REPLAY ")]
             outcome = json.loads(last[-1][7:]) if last else {"status": "error", "stderr": r.stderr[-800:]}
